@@ -43,6 +43,8 @@ func init() {
 		mutation{"gate-refusal-nonretryable", "chord/local_kv.go", "			n.kvStaleCount.Inc()\n			return zeroV, chord.ErrKVStaleOwnership\n		}\n\n		if n.surrogate != nil {", "			n.kvStaleCount.Inc()\n			return zeroV, chord.ErrNodeGone\n		}\n\n		if n.surrogate != nil {", "gate-refusal"},
 		mutation{"unlock-before-handler", "chord/local_kv.go", "		n.predecessorMu.RLock()\n		defer n.predecessorMu.RUnlock()\n\n		if n.predecessor != nil {\n			l = l.With", "		n.predecessorMu.RLock()\n		n.predecessorMu.RUnlock()\n\n		if n.predecessor != nil {\n			l = l.With", "kv-gate"},
 		mutation{"getter-under-own-lock", "chord/local_tasks.go", "		n.predecessorMu.Lock()\n		if n.predecessor == pre {", "		n.predecessorMu.Lock()\n		if n.getPredecessor() == pre {", "no-reentrant-lock"},
+		mutation{"refusal-after-the-effect", "chord/local_kv.go", "		return handler(ctx, n.kv, targetLocal, id)\n	}()", "		v, err := handler(ctx, n.kv, targetLocal, id)\n		if n.state.Get() != chord.Active {\n			return zeroV, chord.ErrKVPendingTransfer\n		}\n		return v, err\n	}()", "kv-gate"},
+		mutation{"local-result-through-variables", "chord/local_kv.go", "		return handler(ctx, n.kv, targetLocal, id)\n	}()", "		v, err := handler(ctx, n.kv, targetLocal, id)\n		return v, err\n	}()", "!kv-gate"},
 		mutation{"surrogate-forward-under-read-locks", "chord/local_kv.go", "			forward = n.surrogate\n			return zeroV, nil", "			return handler(ctx, n.surrogate, targetSurrogate, id)", "forward-unlocked"},
 		mutation{"sibling-wrong-method", "chord/local_kv.go", "			return nil, kv.PrefixRemove(ctx, prefix, child)", "			return nil, kv.PrefixAppend(ctx, prefix, child)", "kv-sibling"},
 		mutation{"sibling-wrong-key", "chord/local_kv.go", "	return kvMiddleware(ctx, n, prefix,\n		func(ctx context.Context, kv chord.KV, target kvTargetType, id uint64) (bool, error) {", "	return kvMiddleware(ctx, n, child,\n		func(ctx context.Context, kv chord.KV, target kvTargetType, id uint64) (bool, error) {", "kv-sibling"},
@@ -466,6 +468,57 @@ func runC04(c *Ctx) {
 		}
 	}
 	c.Floor("forwarded KV request sites", nfwd, 2)
+
+	// once the local store ran the operation, its verdict is the request's verdict: no
+	// return reachable after the local handler call yields anything but that call's
+	// results (a retryable refusal issued AFTER the effect makes the caller retry an
+	// operation that already happened - "failed with a retryable error but took effect")
+	nloc := 0
+	{
+		kvm0 := c.Func("chord", "", "kvMiddleware")
+		for _, call := range kvm0.Calls(true, func(call *ast.CallExpr) bool {
+			id, ok := call.Fun.(*ast.Ident)
+			return ok && kvm0.paramIndex(kvm0.Info.ObjectOf(id)) == 3 && len(call.Args) == 4
+		}) {
+			g := kvm0.enclosing(call)
+			if g.FieldKey(call.Args[1]) != "chord.LocalNode.kv" {
+				continue
+			}
+			if o := g.ObjOf(call.Args[2]); o != nil && o.Name() == "targetReplication" {
+				continue
+			}
+			nloc++
+			reached, _ := g.Reach(call, nil, nil)
+			bad := ""
+			check := func(r *ast.ReturnStmt) {
+				if len(r.Results) == 1 && ast.Unparen(r.Results[0]) == ast.Expr(call) {
+					return
+				}
+				for _, res := range r.Results {
+					fromCall := false
+					if v := g.varOf(res); v != nil {
+						defs := g.defsOf(v)
+						fromCall = len(defs) > 0
+						for _, d := range defs {
+							if d.rhs == nil || ast.Unparen(d.rhs) != ast.Expr(call) {
+								fromCall = false
+							}
+						}
+					}
+					if !fromCall {
+						bad = c.pos(r.Pos()) + " returns " + g.Prov(res)
+					}
+				}
+			}
+			for _, m := range reached {
+				if r, ok := m.(*ast.ReturnStmt); ok && !containsNode(r, call) {
+					check(r)
+				}
+			}
+			c.Ob("kv-gate", "kvMiddleware#local-result-returned-as-is", call.Pos(), bad == "", "every return reachable after the local store handled the request yields the handler's own results; "+bad)
+		}
+	}
+	c.Floor("local handler invocations in kvMiddleware", nloc, 1)
 
 	// gate refusals
 	kvm := c.Func("chord", "", "kvMiddleware")
